@@ -543,14 +543,30 @@ fn naive_find(h: &[u8], n: &[u8]) -> Option<usize> {
     (0..=h.len() - n.len()).find(|&i| &h[i..i + n.len()] == n)
 }
 
-const NEEDLES: [&str; 9] = ["-", "--", "=", "a", "é", "a=", ",", "€", "1."];
+/// (the second half: needles that overlap themselves, so that a search which skips ahead after a
+/// partial match misses an occurrence: `aab` in `aaab`)
+const NEEDLES: [&str; 16] = ["-", "--", "=", "a", "é", "a=", ",", "€", "1.", "aab", "--a", "-=-", "aaa", "a-a", "==a", "1.1e"];
 
 fn check_ext(hay: &[u8], st: &mut Stats) {
     st.cur_replay = format!("--one {}", hex(hay));
     let r = catch_unwind(AssertUnwindSafe(|| {
         let h = OsStr::from_bytes(hay);
         let hh = hex(hay);
-        for needle in NEEDLES {
+        // needles derived from the haystack itself: its valid-UTF-8 substrings of 2..=4 bytes
+        // starting at offsets 1 and 2 (so that an occurrence is guaranteed and usually not at 0)
+        let mut derived: Vec<String> = vec![];
+        for start in 1..=2usize {
+            for len in 2..=4usize {
+                if start + len <= hay.len() {
+                    if let Ok(sub) = std::str::from_utf8(&hay[start..start + len]) {
+                        if !derived.iter().any(|d| d == sub) && !NEEDLES.contains(&sub) {
+                            derived.push(sub.to_string());
+                        }
+                    }
+                }
+            }
+        }
+        for needle in NEEDLES.iter().copied().chain(derived.iter().map(|s| s.as_str())) {
             st.evaluations += 1;
             let nb = needle.as_bytes();
             macro_rules! bad {
